@@ -25,6 +25,7 @@ type inst struct {
 }
 
 type outcome struct {
+	typeErr  string // constructors/converters: wrong element type, dynamic type or wrap-around width
 	panicMsg string
 	content  []obsElem // projected result container (receiver / new object)
 	boolRet  bool
@@ -139,14 +140,110 @@ func runGeneric(in inst, rc *rec, o operands) (out outcome) {
 			}
 		case "New":
 			res = newFromLists(t, rc, in.ak)
+		case "Ctor":
+			res = genericCtor(t, rc, o)
 		default:
 			panic("driver: unknown operation " + rc.Op)
 		}
 		if rc.Exp.T == "c" {
 			out.content = project(res)
 		}
+		if rc.Op == "Ctor" || rc.Op == "As" || rc.Op == "New" {
+			out.typeErr = checkType(t, rc, res)
+		}
 	})
 	return out
+}
+
+// genericCtor calls the constructor / converter of vector.go, matrix.go that
+// takes the element type as an argument and is named in the record.
+func genericCtor(t *elemType, rc *rec, o operands) cont {
+	rows, cols := rc.Dims[0], rc.Dims[1]
+	switch rc.Ctor {
+	case "NullDenseVector":
+		return cont{vec: NullDenseVector(t.st, rows)}
+	case "NullSparseVector":
+		return cont{vec: NullSparseVector(t.st, rows)}
+	case "AsDenseVector":
+		return cont{vec: AsDenseVector(t.st, o.a.constVec())}
+	case "AsSparseVector":
+		return cont{vec: AsSparseVector(t.st, o.a.constVec())}
+	case "NullDenseMagicVector":
+		return cont{vec: NullDenseMagicVector(t.st, rows)}
+	case "NullSparseMagicVector":
+		return cont{vec: NullSparseMagicVector(t.st, rows)}
+	case "AsDenseMagicVector":
+		return cont{vec: AsDenseMagicVector(t.st, o.a.constVec())}
+	case "AsSparseMagicVector":
+		return cont{vec: AsSparseMagicVector(t.st, o.a.constVec())}
+	case "NullDenseMatrix":
+		return cont{mat: NullDenseMatrix(t.st, rows, cols)}
+	case "NullSparseMatrix":
+		return cont{mat: NullSparseMatrix(t.st, rows, cols)}
+	case "AsDenseMatrix":
+		return cont{mat: AsDenseMatrix(t.st, o.a.mat)}
+	case "AsSparseMatrix":
+		return cont{mat: AsSparseMatrix(t.st, o.a.mat)}
+	case "NullDenseMagicMatrix":
+		return cont{mat: NullDenseMagicMatrix(t.st, rows, cols)}
+	case "NullSparseMagicMatrix":
+		return cont{mat: NullSparseMagicMatrix(t.st, rows, cols)}
+	case "AsDenseMagicMatrix":
+		return cont{mat: AsDenseMagicMatrix(t.st, o.a.mat)}
+	case "AsSparseMagicMatrix":
+		return cont{mat: AsSparseMagicMatrix(t.st, o.a.mat)}
+	case "DenseIdentityMatrix":
+		return cont{mat: DenseIdentityMatrix(t.st, rows)}
+	case "SparseIdentityMatrix":
+		return cont{mat: SparseIdentityMatrix(t.st, rows)}
+	case "DenseMagicIdentityMatrix":
+		return cont{mat: DenseMagicIdentityMatrix(t.st, rows)}
+	case "SparseMagicIdentityMatrix":
+		return cont{mat: SparseMagicIdentityMatrix(t.st, rows)}
+	}
+	vh.Fatal("driver: the specification names a constructor the driver does not bind: " + rc.Ctor)
+	return cont{}
+}
+
+// checkType: the constructed object has the element type the case is
+// instantiated for (ElementType() and dynamic type), the storage class of the
+// record and - integer types - the wrap-around width of that type.
+func checkType(t *elemType, rc *rec, res cont) string {
+	var et ScalarType
+	kind := "Vector"
+	if res.vec != nil {
+		et = res.vec.ElementType()
+	} else {
+		et = res.mat.ElementType()
+		kind = "Matrix"
+	}
+	if et != t.st {
+		return fmt.Sprintf("ElementType() = %v, want %v", et, t.st)
+	}
+	sto := "Sparse"
+	if isDense(rc.R.K) {
+		sto = "Dense"
+	}
+	want := sto + t.name + kind
+	if got := fmt.Sprintf("%T", res.obj()); !strings.HasSuffix(got, "."+want) {
+		return fmt.Sprintf("dynamic type %s, want %s", got, want)
+	}
+	if rc.Probe != nil && t.class == "int" && len(rc.Exp.C) > 0 {
+		var e Scalar
+		if res.vec != nil {
+			e = res.vec.At(0)
+		} else {
+			e = res.mat.At(0, 0)
+		}
+		one := NullScalar(t.st)
+		one.SetInt64(t.resolve(&rc.Probe.Y))
+		e.SetInt64(t.resolve(&rc.Probe.X))
+		e.Add(e, one)
+		if got, w := e.GetInt64(), t.resolve(&rc.Probe.Res); got != w {
+			return fmt.Sprintf("element arithmetic is not that of %s: MaxInt+1 = %d, want %d", t.name, got, w)
+		}
+	}
+	return ""
 }
 
 // newFromLists: construction from index/value lists.  The listed positions are
@@ -252,6 +349,9 @@ func judge(t *elemType, rc *rec, out outcome) (string, int) {
 			return "", -1 // integer division by zero: panic allowed
 		}
 		return "panic", -1
+	}
+	if out.typeErr != "" {
+		return "type", -1
 	}
 	switch rc.Exp.T {
 	case "c":
@@ -469,6 +569,9 @@ func containerCase(rc *rec, line []byte, mode string, flt *only, out *vh.Out, st
 		if rc.Sp == "fs" && t.class == "int" {
 			continue // Inf, NaN and -0 exist in the floating point and magic element types only
 		}
+		if rc.Op == "Ctor" && strings.Contains(rc.Ctor, "Magic") && t.class != "real" {
+			continue // the Magic constructors exist for the magic element types only
+		}
 		for _, ak := range aks {
 			for _, bk := range bks {
 				for _, constOp := range []bool{false, true} {
@@ -536,6 +639,9 @@ func containerCase(rc *rec, line []byte, mode string, flt *only, out *vh.Out, st
 	st.cases += ncase
 	st.concrete += nconc
 	st.byOp[rc.Op] += ncase
+	if rc.Op == "Ctor" {
+		st.byOp["Ctor:"+rc.Ctor] += ncase
+	}
 	st.recvKinds[rc.R.K+"/"+rc.R.Pc] += ncase
 	for p := range pairs {
 		st.pairs[p] = true
@@ -544,7 +650,7 @@ func containerCase(rc *rec, line []byte, mode string, flt *only, out *vh.Out, st
 }
 
 func obsOf(rc *rec, o outcome) vh.M {
-	m := vh.M{"panic": o.panicMsg}
+	m := vh.M{"panic": o.panicMsg, "type_error": o.typeErr}
 	switch rc.Exp.T {
 	case "c":
 		m["content"] = o.content
